@@ -2,7 +2,8 @@
 (***************************************************************************)
 (* Exhaustive exploration of the LinkedDict design for small constants:    *)
 (* every public operation from every reachable state over Keys x Vals and  *)
-(* the bounds Maxes.  The state space is finite (values are capped by      *)
+(* the bounds Maxes -- set at any time to any of them (below, at or above   *)
+(* the current size, 0, negative).  The state space is finite (values are capped by      *)
 (* MaxVal: an Add that would exceed it is not taken), so TLC explores ALL  *)
 (* operation sequences, not a depth-bounded prefix.                        *)
 (*                                                                         *)
@@ -91,7 +92,8 @@ OthersKeepOrderA == A \in InsertOps \cup {"GetLRU"} =>
                           \/ IsPrefix(rest, Without(ord, K))
 OthersKeepOrder == [][OthersKeepOrderA]_mcvars
 \* eviction side: inserting at the end drops a prefix, at the front a suffix;
-\* and exactly as many entries as needed
+\* and exactly as many entries as needed -- one when the structure was exactly
+\* full, the whole excess when the bound had been lowered below the size
 EvictOppositeA == (A \in InsertOps /\ A # "AddNoOver" /\ Ok /\ WasNew) =>
         /\ K \in Range(ord')
         /\ IF A \in FirstOps THEN IsPrefix(Tail(ord'), ord)
@@ -101,8 +103,15 @@ EvictOpposite == [][EvictOppositeA]_mcvars
 \* add-no-over never evicts
 NoOverNeverEvictsA == A = "AddNoOver" => Range(ord) \subseteq Range(ord')
 NoOverNeverEvicts == [][NoOverNeverEvictsA]_mcvars
-\* sort permutes, does not lose or change entries
-SortPermutesA == A = "Sort" => (Range(ord') = Range(ord) /\ val' = val /\ Len(ord') = Len(ord))
+\* sort orders the entries by the comparator and changes no value; within the
+\* bound it loses nothing; with an excess (bound lowered below the size) it keeps
+\* exactly max entries, each of them after every dropped one under the comparator
+SortDir == DirSeq[K]
+SortPermutesA == A = "Sort" =>
+     /\ Range(ord') \subseteq Range(ord) /\ \A k \in Range(ord') : val'[k] = val[k]
+     /\ \A i \in 1..(Len(ord') - 1) : Less(SortDir, ord'[i], ord'[i + 1])
+     /\ Len(ord') = IF max > 0 /\ Len(ord) > max THEN max ELSE Len(ord)
+     /\ \A d \in Range(ord) \ Range(ord'), k \in Range(ord') : Less(SortDir, d, k)
 SortPermutes == [][SortPermutesA]_mcvars
 \* removal removes exactly the named entry
 RemoveExactA == A = "Remove" => (ord' = Without(ord, K) /\ K \notin DOMAIN val')
@@ -121,10 +130,29 @@ LRUMoves == [][LRUMovesA]_mcvars
 \* edge on each real type.  Label = <<operation, key | dir index | bound, value>>.
 DumpT == PrintT(ToJson(<<"T", ord, ValuesSeq, max, act', ord', ValuesSeq', max'>>))
 
+\* LazyBound (LinkedDict): a step that brings in a new key ends within the bound;
+\* an excess over the bound only stems from lowering it and no step adds to it
+LazyBoundP == [][LazyBound]_mcvars
+\* setting the bound (to anything, at any time) never touches the entries ...
+SetMaxInertA == A = "SetMax" => (ord' = ord /\ val' = val /\ max' = K)
+SetMaxInert == [][SetMaxInertA]_mcvars
+\* ... and nothing but the insertion of a new key, a removal, a clear or a sort
+\* of a structure above its bound (sorting re-inserts) ever changes the key set
+OnlyNewKeyEvictsA == (A \notin {"Remove", "RemoveFirst", "RemoveLast", "Clear"} /\ ~(A \in InsertOps /\ WasNew)
+                         /\ ~(A = "Sort" /\ max > 0 /\ Len(ord) > max))
+                        => Range(ord') = Range(ord)
+OnlyNewKeyEvicts == [][OnlyNewKeyEvictsA]_mcvars
+\* add-no-over of a new key is dropped while size >= max (also above the bound)
+NoOverDropsA == (A = "AddNoOver" /\ WasNew /\ max > 0 /\ Len(ord) >= max) => (ord' = ord /\ val' = val)
+NoOverDrops == [][NoOverDropsA]_mcvars
+
 \* the "absent" answer never touches the dictionary
 NoneIsInertA == A = "SetNullValue" => (ord' = ord /\ val' = val /\ max' = max)
 NoneIsInert == [][NoneIsInertA]_mcvars
 
+\* the bounds SetMax is called with (a cfg file cannot write a negative number)
+MaxesSmall == -1..3
+MaxesWide  == -1..4
 NoneNil  == <<>>
 NoneZero == <<0>>
 View == vars
